@@ -165,6 +165,70 @@ def run_cfgs(ctx, cfgs, name, acc):
     return acc
 
 
+# ---------------------------------------------------------------------------------- T direction
+def record_job(job):
+    """Record one validator run on a corpus mutant (in-process wrappers, see validator_common.Recorder)."""
+    name, kind, data = vc.make_mutant(job)
+    rec = vc.Recorder()
+    rec.install()
+    try:
+        ev, r = rec.record(data, 0, {"base": name, "kind": kind})
+    finally:
+        rec.uninstall()
+    return ev, (r["sig"] or ""), (r.get("msg") or "")
+
+
+def trace_direction(ctx):
+    from .. import trace
+
+    jobs = vc.mutant_jobs(ctx, 130, 3000)
+    outs = common.pmap(record_job, jobs)
+    records = []
+    for tid, (ev, sig, msg) in enumerate(outs):
+        for e in ev:
+            e["tid"] = tid
+        records += ev
+    # binding self-test: turn the verdict of rejected runs into "accept" in a copy of the trace: every run
+    # whose rejection the structural model explains must then be flagged
+    flipped = []
+    for tid, (ev, sig, msg) in enumerate(outs[:400]):
+        for e in ev:
+            e2 = dict(e, tid=len(outs) + tid)
+            if e2["ev"] == "end" and e2["outcome"] == "reject":
+                e2["outcome"] = "accept"
+            flipped.append(e2)
+    bad, res = trace.validate("ValidatorTrace", records + flipped, timeout=3000)
+    ctx.add_tlc(res, "trace validation (ValidatorTrace)")
+    self_hits = sum(1 for b in bad if b["alarm"] and b["tid"] >= len(outs))
+    if self_hits == 0:
+        raise RuntimeError("trace binding self-test failed: rejected runs relabelled as accepted were all accepted by ValidatorTrace")
+    explained = {}
+    nrej = nacc = 0
+    for b in bad:
+        if b["tid"] >= len(outs):
+            continue
+        if b["alarm"]:
+            ev, sig, msg = outs[b["tid"]]
+            meta = ev[0]
+            if b["clause"] == "VerdictIsAcceptOrConformanceError":
+                ctx.violation("C01|crash|%s" % sig, "validator raised a non-conformance exception (%s) on mutant %s of %s" % (msg, meta["kind"], meta["base"]), {"trace_job": list(jobs[b["tid"]])})
+            else:
+                ctx.violation("C01|trace|%s|%s" % (b["clause"], b["rule"]), "validator accepted mutant %s of %s although its recorded data units violate %s" % (meta["kind"], meta["base"], b["rule"] or "sequence termination"), {"trace_job": list(jobs[b["tid"]])})
+        else:
+            nrej += 1
+            explained[b["rule"] or "(value-level or end of stream)"] = explained.get(b["rule"] or "(value-level or end of stream)", 0) + 1
+    nacc = sum(1 for ev, _, _ in outs if ev[-1]["outcome"] == "accept")
+    return {
+        "recorded_runs": len(outs),
+        "recorded_events": len(records),
+        "accepted_runs": nacc,
+        "rejected_runs": nrej,
+        "rejections_by_structural_rule": explained,
+        "selftest_relabelled_runs_flagged": self_hits,
+        "sample": [dict((k, v) for k, v in e.items() if k != "tid") for e in outs[1][0][:8]],
+    }
+
+
 def binding_selftest():
     """A validator whose slice-contiguity check is disabled must be flagged by the same replay machinery."""
     from vc2_conformance.decoder import fragment_syntax as fs
@@ -211,10 +275,13 @@ def run(ctx):
         ctx.violation(sig, what, case)
     if acc["accept"] == 0 or acc["reject"] == 0 or acc.get("completed", 0) == 0:
         raise RuntimeError("vacuous: accept=%d reject=%d completed=%d" % (acc["accept"], acc["reject"], acc.get("completed", 0)))
+    tinfo = trace_direction(ctx)
+    if tinfo["accepted_runs"] < 20:
+        raise RuntimeError("vacuous trace direction: %d accepted runs" % tinfo["accepted_runs"])
     hit = binding_selftest()
     if hit == 0:
         raise RuntimeError("binding self-test failed: mutant validator not detected")
-    total = acc["n"] + acc["completed"]
+    total = acc["n"] + acc["completed"] + tinfo["recorded_runs"]
     ctx.coverage.update(
         {
             "traces_validated_against_impl": total,
@@ -232,7 +299,8 @@ def run(ctx):
             "binding_selftest": {"mutant": "validator with the FragmentSlicesNotContiguous check disabled (in-process)", "streams_flagging_it": hit},
             "spec_disagreements": acc["eof_disagree"],
             "spec_disagreements_note": "histories ending in a violating unit that the validator rejected only with UnexpectedEndOfStream (logged, not an alarm)",
-            "samples": acc["samples"][:8],
+            "trace_direction": tinfo,
+            "samples": acc["samples"][:8] + [{"recorded_trace": tinfo["sample"]}],
         }
     )
     ctx.assumptions += [
@@ -244,6 +312,12 @@ def run(ctx):
 
 def replay(case):
     vc.install_permissive_levels()
+    if "trace_job" in case:
+        from .. import trace
+
+        ev, sig, msg = record_job(tuple(case["trace_job"]))
+        bad, _ = trace.validate("ValidatorTrace", ev)
+        return {"events": ev, "crash": sig, "violations": [b for b in bad if b["alarm"]]}
     o = exec_case(case)
     o["violations"] = [o["sig"]] if o["sig"] else []
     o["bytes_hex"] = vc.history_bytes(case["cfg"], case["hist"]).hex()
